@@ -75,6 +75,7 @@ func runC05(p *core.Prog, r *core.Report) {
 	r.Rule("C05-R3", "dirty stores are dropped: Put is not deferred (a Store abandoned by a panicking handler never re-enters the pool) and every path to Put passes all resets", 1)
 	r.Rule("C05-R4", "capacity independence: captured parameter values are stored with append (or a truncation to a constant length), never by reslicing up to a computed length or by element stores that rely on the capacity fixed at creation", 2)
 	r.Rule("C05-R5", "request IDs: the counter is only touched through sync/atomic; each pooled Store owns a freshly made ID buffer; the ID buffer is written only by ServeHTTP and the constructor", 3)
+	r.Rule("C05-R6", "shared route data is read-only for requests: a slice of the Store that aliases a field of the routing tree (the parameter names) is never cleared, copied into or element-assigned", 0)
 	r.NotDecided = append(r.NotDecided, "cross-Mux uniqueness of the random prefix", "registration concurrent with serving (ServeHTTP reads the tree without mux.mu): the property speaks of registration between requests")
 	r.Trusted = append(r.Trusted, "sync.Pool: an object is owned exclusively between Get and Put", "go/ssa")
 
@@ -498,6 +499,73 @@ func runC05(p *core.Prog, r *core.Report) {
 					r.Check(okW, "C05-R5", "Store."+idf.Name()+" "+a.Kind+" in "+fnName(ref.Fn), p.Pos(a.Instr.Pos()), "ServeHTTP / constructor only: the ID is constant while handlers run", "the ID buffer is modified outside ServeHTTP: GetID() aliases it, the ID would change during the request")
 				}
 			}
+		}
+	}
+
+	// ---- R6: the parameter names a Store carries are an alias of the matched route's own list (Params.K = node.names): a
+	// request may replace the alias but never write through it — that would change the route for every later request
+	{
+		params := p.Named("httpd", "Params")
+		var shared []string // origin keys of slices that belong to the routing tree
+		if params != nil {
+			for _, f := range structFields(params) {
+				if sl, ok := f.Type().Underlying().(*types.Slice); ok && isStringT(sl.Elem()) {
+					// which of the string-slice fields is assigned from a tree node's field?
+					for _, ref := range sx.FieldRefs(p.PkgFuncs("httpd"), f) {
+						fa, ok := ref.Instr.(*ssa.FieldAddr)
+						if !ok {
+							continue
+						}
+						for _, a := range sx.Accesses(fa) {
+							if a.Kind != "write" {
+								continue
+							}
+							for o := range sx.Origins(a.Val) {
+								if strings.HasPrefix(o, "field:") && !strings.HasPrefix(o, "field:Params.") && !strings.HasPrefix(o, "field:Store.") {
+									shared = append(shared, "field:Params."+f.Name(), o)
+								}
+							}
+						}
+					}
+				}
+			}
+		}
+		shared = uniq(shared)
+		isShared := func(v ssa.Value) string {
+			org := sx.Origins(v)
+			for _, k := range shared {
+				if org[k] {
+					return k
+				}
+			}
+			return ""
+		}
+		var bad []string
+		nRead := 0
+		for _, fn := range p.PkgFuncs("httpd") {
+			sx.Instrs(fn, func(in ssa.Instruction) {
+				switch x := in.(type) {
+				case *ssa.Call:
+					if b, ok := x.Call.Value.(*ssa.Builtin); ok && len(x.Call.Args) > 0 {
+						if k := isShared(x.Call.Args[0]); k != "" {
+							nRead++
+							switch b.Name() {
+							case "clear", "copy":
+								bad = append(bad, b.Name()+"() writes through "+strings.TrimPrefix(k, "field:")+" in "+fnName(fn)+" at "+p.Pos(in.Pos()))
+							}
+						}
+					}
+				case *ssa.Store:
+					if ia, ok := x.Addr.(*ssa.IndexAddr); ok {
+						if k := isShared(ia.X); k != "" {
+							bad = append(bad, "element store through "+strings.TrimPrefix(k, "field:")+" in "+fnName(fn)+" at "+p.Pos(in.Pos()))
+						}
+					}
+				}
+			})
+		}
+		if len(shared) > 0 {
+			r.Check(len(bad) == 0, "C05-R6", "the route's parameter-name list is never written through its alias in the Store", "-", "Params.K is only replaced, never cleared, copied into or indexed for writing ("+strings.Join(shared, ", ")+")", strings.Join(uniq(bad), "; ")+": the list belongs to the matched route — after the first request the route has lost its parameter names for every later request")
 		}
 	}
 }
